@@ -15,11 +15,12 @@ func init() {
 		Explanation: "Decides the pairing of callbacks with claim transitions on every path of the code, not the run-time order of callback goroutines: (R1) OnPromote is invoked at exactly one site, in a goroutine started by the claim-set unit after the claim was stored, with the token stored for that term; " +
 			"(R2) no silent demotion: after every operation that can turn a standing claim into false, on every call chain up to its root, every path to the exit invokes OnDemote, except where the callback is nil, where the clearing critical section saw the claim already false, or on the error returns of StopWithContext; " +
 			"(R3) no spurious or double notification: every OnDemote invocation is control-dependent on 'this activation's clearing critical section saw the claim true' (the clear unit returns the claim it saw under the lock; stop units load it under the lock hold that clears it); a bare IsLeader() test before the clear does not qualify.",
-		NotDecided: []string{"the relative order in which the promotion goroutine and a later demotion callback actually run (scheduling)", "strict alternation at run time when the OnPromote callback itself is slow"},
+		NotDecided: []string{"the relative order in which the promotion goroutine and a later demotion callback actually run beyond the existence of an ordering edge (R4)", "strict alternation at run time when the OnPromote callback itself is slow"},
 		Assumptions: []string{"the election mutex serialises claim transitions (C18-R1, C20)", "callbacks registered after Start are picked up at the next transition"},
 		Rules: map[string]string{
 			"R1": "the claim Store(true) is guarded by claim==false read under the same write-lock hold (no second promotion within a term); exactly one invocation site of the onPromote value; it is in a `go` closure of the claim-set unit, the claim Store(true) dominates the go statement, and its token argument is the value stored to the token field in that activation",
 			"R2": "for every claim-clearing site (Store(false) or call of a function that may demote): must-follow of an onDemote invocation on every path to the function exit, permitted skips: onDemote == nil, claim-seen-by-the-clearing-section == false, non-nil error return of a stop unit; otherwise the obligation moves to every caller; a root without notification is a violation",
+			"R4": "if the onPromote value is invoked in a goroutine: every onDemote invocation is dominated (in the function that owns it) by a blocking wait (receive / select / WaitGroup.Wait / a must-block call) that can carry the order 'promotion callback invoked first'",
 			"R3": "every onDemote invocation is guarded by a literal 'result of a returns-previous-claim function is true' or, in a unit that clears the claim itself, 'claim loaded under the write-lock hold that clears it is true'",
 		},
 	})
@@ -418,6 +419,78 @@ func checkC08(c *Ctx) {
 	}
 	if nInv < 3 {
 		c.undecided("R3", "instance-floor", nil, "only %d OnDemote invocation sites found; 4 exist on the reference tree", nInv)
+	}
+
+	// ---- R4 a term's OnDemote is ordered after its OnPromote --------------------------------------
+	// "The two strictly alternate, starting with a promotion" is about the order of invocations.
+	// OnPromote is invoked in a goroutine the claim-set unit starts; an OnDemote that is invoked
+	// synchronously by whoever ends the term needs an ordering edge from that goroutine (a wait that
+	// dominates the invocation: the stop units wait for the WaitGroup the goroutine is registered
+	// with), or a term that ends before the goroutine is scheduled delivers OnDemote first.
+	asyncPromote := false
+	var promoteSite ssa.Instruction
+	for _, f := range m.Funcs {
+		eachInstr(f, func(in ssa.Instruction) {
+			if m.invokesFieldValue(in, m.OnPromote) {
+				promoteSite = in
+				for _, sp := range m.Spawns() {
+					if containsFn(sp.Targets, topFunc(f)) || containsFn(sp.Targets, f) {
+						asyncPromote = true
+					}
+				}
+			}
+		})
+	}
+	if asyncPromote {
+		for _, f := range m.Funcs {
+			eachInstr(f, func(in ssa.Instruction) {
+				if !m.invokesFieldValue(in, m.OnDemote) {
+					return
+				}
+				own := m.ownerOf(topFunc(f))
+				at := in
+				if f != own {
+					// the invocation sits in a closure / helper: judge the instruction of the owner that stands for it
+					if l := m.liftTo(own, in); l != nil {
+						at = l
+					} else if mc := m.Sym.closureOf[f]; mc != nil {
+						// the closure's creation site, itself possibly in a function the owner's body is split into
+						if l := m.liftTo(own, mc); l != nil {
+							at = l
+						}
+					}
+				}
+				var orderedAt func(own *ssa.Function, at ssa.Instruction, depth int) bool
+				orderedAt = func(own *ssa.Function, at ssa.Instruction, depth int) bool {
+					found := false
+					m.eachUnitInstr(own, func(x ssa.Instruction) {
+						if !m.isBlockingInstr(x) {
+							return
+						}
+						if lx := m.liftTo(own, x); lx != nil && at.Parent() == own && lx != at && dominatesInstr(lx, at) {
+							found = true
+						}
+					})
+					if found || depth > 2 {
+						return found
+					}
+					// a helper with several call sites: every call site must be ordered
+					sites := m.callers[own]
+					if own.Parent() != nil || len(sites) < 2 {
+						return false
+					}
+					for _, cs := range sites {
+						if cs.IsGo || !orderedAt(m.ownerOf(cs.Caller), cs.Instr, depth+1) {
+							return false
+						}
+					}
+					return true
+				}
+				ordered := orderedAt(own, at, 0)
+				key := fmt.Sprintf("OnDemote invocation #%d in %s is ordered after the term's OnPromote", ordinalOf(f, in, func(x ssa.Instruction) bool { return m.invokesFieldValue(x, m.OnDemote) }), shortFn(f))
+				c.check(ordered, "R4", key, in, "OnPromote is invoked in its own goroutine (%s); a wait (receive, select, WaitGroup) that can order this invocation after it dominates the invocation: %v. Without one a term that ends before the promotion goroutine is scheduled (an application that calls ValidateTokenOrDemote as soon as IsLeader() turns true, a record deleted right after the acquisition) delivers OnDemote BEFORE that term's OnPromote.", c.posOf(promoteSite), ordered)
+			})
+		}
 	}
 }
 
